@@ -1,3 +1,5 @@
+#[path = "../kinds.rs"]
+mod kinds;
 use std::io::{BufRead, Write};
 use chumsky_verif_harness::ast::Rd;
 use chumsky_verif_harness::run;
@@ -13,7 +15,7 @@ fn main() {
         }
         let mut rd = Rd::new(&line);
         match rd.case() {
-            Ok(case) => run::case_kinds(&case, &mut w),
+            Ok(case) => kinds::case_kinds(&case, &mut w),
             Err(e) => {
                 let _ = writeln!(w, "ERR {} :: {}", e, line.trim());
             }
